@@ -35,6 +35,9 @@ class Fn:
     ret: str = None               # name for the result  `-> (ret: T)`
     contract: str = ""            # requires/ensures/decreases text
     loops: dict = field(default_factory=dict)   # ordinal -> invariant text
+    # alternative to ordinals: callable(k, header_text, keyword) -> invariant text | None, deciding from the loop HEADER (e.g. the
+    # collection it walks).  Invariants chosen this way survive added/removed/reordered loops, so the proof-skeleton guard is off.
+    loop_fn: object = None
     rewrites: list = field(default_factory=list)  # (old, new[, count])
     ghost: list = field(default_factory=list)     # (anchor, 'before'|'after', text[, nth])
     rules: list = None            # override unit rules
@@ -46,6 +49,9 @@ class Fn:
                                   # (it is the identical text proved against the real body in another unit)
     cut_before: str = None        # fragment extraction: keep the body up to (excluding) the statement starting with this text,
     cut_tail: str = ""            # ... and continue with this (opaque) tail expression; the dropped part is NOT verified
+    cut_from: str = None          # fragment extraction: drop the body text before the statement starting with this text; the fragment
+    sig: str = ""                 # ... becomes the body of a function with this synthetic signature (the dropped prefix's live variables
+                                  # become parameters).  The dropped part is NOT verified.
     as_spec: bool = False         # emit the *same body* as `pub open spec fn <name>_spec` (pure match/if code only):
                                   # lemmas over <name>_spec are then statements about the real code's table
 
@@ -162,6 +168,14 @@ def annotate_fn(text, item: Fn, log, where):
             raise AnchorLost(f"{where}: loop #{k} not found ({len(loops)} loops)")
         _s, b, _kw = loops[k]
         inserts.append((body_open + b, "\n" + inv.strip() + "\n"))
+    if item.loop_fn is not None:
+        for k, (s_, b, kw) in enumerate(loops):
+            if k in item.loops:
+                continue
+            inv = item.loop_fn(k, text[body_open + s_:body_open + b], kw)
+            if inv is None:
+                raise AnchorLost(f"{where}: loop #{k} (`{text[body_open + s_:body_open + b].strip()[:60]}`) has no invariant rule")
+            inserts.append((body_open + b, "\n" + inv.strip() + "\n"))
     n_loops = len(loops)
 
     # ghost inserts.  anchor forms:
@@ -324,6 +338,15 @@ def generate(unit: Unit, root, rules_mod):
                                      "new": it.cut_tail, "count": 1})
         else:
             orig_kept = orig
+        if it.cut_from:
+            k = orig_kept.count(it.cut_from)
+            if k != 1:
+                raise AnchorLost(f"{where}: cut_from anchor {it.cut_from!r} occurs {k}x")
+            cut = orig_kept.index(it.cut_from)
+            cut = orig_kept.rfind("\n", 0, cut) + 1
+            meta["rewrites"].append({"where": where, "kind": "fragment", "old": f"<signature and {orig_kept[:cut].count(chr(10))} lines before `{it.cut_from}`>",
+                                     "new": it.sig, "count": 1})
+            orig_kept = it.sig.rstrip() + " {\n" + orig_kept[cut:]
         t = rules_mod.apply_rules(orig_kept, rules, ctx, meta["rule_counts"], where)
         # loop ordinals and ghost anchors refer to the text after generic rules and site rewrites
         t = apply_site_rewrites(t, it.rewrites, meta["rewrites"], where)
@@ -356,7 +379,8 @@ def generate(unit: Unit, root, rules_mod):
             parts.append(hdr + t + "\n")
         meta["linemap"].append({"kind": "fn", "name": it.rename or it.name, "container": wrap, "start": start, "end": cur_line(), "where": where})
         meta["items"].append({"item": where, "lines": [src.line_of(s), src.line_of(e)], "sha256": sha(orig), "kind": "fn",
-                              "loops": n_loops, "loops_with_invariant": len(it.loops),
+                              "loops": n_loops, "loops_with_invariant": (n_loops if it.loop_fn is not None else len(it.loops)),
+                              "loops_by_header": it.loop_fn is not None,
                               "has_contract": bool(it.contract.strip()), "obligation": it.obligation})
     parts.append("\n} // verus!\nfn main() {}\n")
     return "".join(parts), meta
